@@ -459,3 +459,5 @@ def run(cx, out):
     out.rule('R05.2', 'R02.3: derived decoders mirror the derived encoders per corpus definition (C05)')
     out.rule('R05.5', 'derived in-place decode_into reads the same representation as decode (only for attribute-free transparent structs)')
     out.absorb(_sub, {'R05.5', 'R05.2'})
+    from . import positive
+    positive.check(cx, out, 'C02')
